@@ -4,7 +4,10 @@
    MDuties duties of which SigDuties have no unsigned data), the invariants of Workflow.tla must follow.  Calls nest
    properly and one chain of calls is in flight at a time (ids 1..depth, LIFO) -- the guards only look at the history and
    at the chain that contains the call, so interleaving two chains adds nothing but states.  `left` bounds the number of
-   top-level calls / environment moves of a behaviour.
+   top-level calls / environment moves of a behaviour (ByzBudget: of Byzantine messages).  The regular configurations
+   switch the guard "OneRoot" OFF (trace validation checks it at every Broadcast): C01 must FOLLOW from the other guards --
+   threshold, distinct stored shares, honest clients sign once and only what they were served, agreement.  Each CONTROL
+   configuration (WorkflowMC_ctl_*.cfg) switches one more promise off and must violate an invariant.
 
    Crypto assumption (DESIGN.md section 3): a partial that verifies under share sh over root r exists only if the holder
    of sh signed r: a Byzantine member makes valid partials for ITS share over anything, invalid ones for any index, and
